@@ -44,6 +44,11 @@ sunit = st.floats(-1., 1., allow_nan=False)
 @st.composite
 def grid_case(draw, tier):
     nrows, ncols = draw(st.integers(1, 8)), draw(st.integers(1, 8))
+    if draw(st.integers(0, 14)) == 0:
+        # rasters of 255..257 cells (row and file buffers)
+        nrows, ncols = draw(st.sampled_from([(1, 255), (1, 256), (1, 257),
+                                             (16, 16), (17, 15), (128, 2),
+                                             (2, 129), (257, 1)]))
     if draw(st.booleans()):
         csz = math.exp(18 * draw(unit) - 9)
     else:
